@@ -305,7 +305,17 @@ def rule_r4(ctx) -> List[R.Inst]:
         elif r.symbols() <= sp.symbols():
             insts.append(R.viol(rid, key, file, expr.lineno, msg, construct=unparse(expr)))
         else:
-            insts.append(R.undec(rid, key, file, expr.lineno, f"not in modelled arithmetic: {sorted(r.symbols() - sp.symbols())}"))
+            extra = sorted(r.symbols() - sp.symbols())
+            # a clamp / rounding / truncation wrapped around a quantity of the formula changes its value on part of the
+            # domain: that is a different formula, not an unknown one
+            lossy = [x for x in extra if x.split("(")[0] in ("max", "min", "round", "int", "abs", "floor", "ceil", "trunc", "clip",
+                                                             "FloorDiv", "Mod")]
+            if lossy and len(lossy) == len(extra):
+                insts.append(R.viol(rid, key, file, expr.lineno,
+                                    f"{msg}; the expression passes a quantity through {lossy[0]}, which changes it on part of the domain",
+                                    construct=unparse(expr)))
+            else:
+                insts.append(R.undec(rid, key, file, expr.lineno, f"not in modelled arithmetic: {extra}"))
 
     def attr_leaf(mapping):
         def leaf(n):
@@ -568,6 +578,82 @@ def rule_r7(ctx) -> List[R.Inst]:
     return insts
 
 
+def rule_r8(ctx) -> List[R.Inst]:
+    """unit helpers of RAConst are the exact scalings their names state (sa/props/units.py)"""
+    from .units import unit_insts
+    return unit_insts(ctx, "C10.R8")
+
+
+def _append_paths(stmts, name: str):
+    """number of `<name>.append(...)` calls along each path through stmts -> set of counts; other writes to <name> -> list"""
+    counts = {0}
+    other = []
+    for s_ in stmts:
+        if isinstance(s_, ast.If):
+            a, oa = _append_paths(s_.body, name)
+            b, ob = _append_paths(s_.orelse, name)
+            other += oa + ob
+            counts = {x + y for x in counts for y in (a | b)}
+            continue
+        if isinstance(s_, (ast.For, ast.While, ast.Try, ast.With)):
+            other.append(s_)
+            continue
+        n_app = 0
+        for n in ast.walk(s_):
+            if isinstance(n, ast.Call) and isinstance(n.func, ast.Attribute) and isinstance(n.func.value, ast.Name) and \
+                    n.func.value.id == name:
+                if n.func.attr == "append":
+                    n_app += 1
+                elif n.func.attr in ("pop", "insert", "extend", "remove", "clear"):
+                    other.append(n)
+            if isinstance(n, (ast.Assign, ast.AugAssign, ast.Delete)):
+                ts = n.targets if isinstance(n, (ast.Assign, ast.Delete)) else [n.target]
+                for t in ts:
+                    if isinstance(t, ast.Subscript) and isinstance(t.value, ast.Name) and t.value.id == name:
+                        other.append(n)
+        counts = {x + n_app for x in counts}
+    return counts, other
+
+
+def rule_r9(ctx) -> List[R.Inst]:
+    """the time list and the position list of a timing map are parallel: bpm_changes_offset_to_snap yields exactly one
+    position entry per tempo change (TimingMap.offsets / snaps / beats index the two lists with the same index)"""
+    M = ctx.M
+    rid = "C10.R9"
+    q = "reamber.algorithms.timing.utils.bpm_changes_offset_to_snap.bpm_changes_offset_to_snap"
+    fn = M.fn(q)
+    file = M.mods[fn.mod].rel
+    rets = [n for n in walk_no_nested(fn.node) if isinstance(n, ast.Return) and isinstance(n.value, ast.Name)]
+    if len(rets) != 1:
+        return [R.undec(rid, "one-per-change", file, fn.node.lineno, "returned list not found")]
+    out = rets[0].value.id
+    inits = [n for n in fn.node.body if isinstance(n, (ast.Assign, ast.AnnAssign)) and
+             isinstance(n.targets[0] if isinstance(n, ast.Assign) else n.target, ast.Name) and
+             (n.targets[0] if isinstance(n, ast.Assign) else n.target).id == out]
+    loops = [n for n in fn.node.body if isinstance(n, ast.For)]
+    if len(inits) != 1 or len(loops) != 1 or not isinstance(inits[0].value, ast.List):
+        return [R.undec(rid, "one-per-change", file, fn.node.lineno, "initial list / pairing loop not found")]
+    n0 = len(inits[0].value.elts)
+    it = unparse(loops[0].iter).replace(" ", "")
+    pairs = it.startswith("zip(") and "[:-1]" in it and "[1:]" in it      # n-1 consecutive pairs
+    counts, other = _append_paths(loops[0].body, out)
+    probs = []
+    if not pairs:
+        probs.append(f"the loop does not run over the n-1 consecutive pairs ({it[:60]})")
+    if n0 != 1:
+        probs.append(f"the list starts with {n0} entries for the first tempo change")
+    if counts != {1}:
+        probs.append(f"an iteration appends {sorted(counts)} entries depending on the path, not exactly one")
+    if other:
+        probs.append(f"entries of '{out}' are replaced / removed inside the loop ({unparse(other[0])[:60]})")
+    if probs:
+        return [R.viol(rid, "one-per-change", file, loops[0].lineno,
+                       "the position list no longer has one entry per tempo change: " + "; ".join(probs) +
+                       " — TimingMap indexes the time list and the position list with the same index",
+                       construct="; ".join(probs)[:200])]
+    return [R.ok(rid, "one-per-change", file, loops[0].lineno, idiom="1 initial entry + exactly one append per consecutive pair")]
+
+
 SPECS = [
     RuleSpec("C10.R1", rule_r1, 5, "A6", "results are returned in query order (permutation algebra); descending sweep for a decrementing cursor"),
     RuleSpec("C10.R2", rule_r2, 2, "A5", "tempo changes are sorted by the integration key before consecutive pairing"),
@@ -575,6 +661,8 @@ SPECS = [
     RuleSpec("C10.R4", rule_r4, 10, "A7", "integration shapes: beat/measure length, position difference at the earlier change's tempo, ms->position split"),
     RuleSpec("C10.R5", rule_r5, 3, "A7", "snapping chooses the nearer neighbour of a sorted table"),
     RuleSpec("C10.R7", rule_r7, 1, "A5", "a list's timing map has one change per tempo row, fields from the same row"),
+    RuleSpec("C10.R8", rule_r8, 24, "A7", "RAConst unit helpers: exact scaling named by the function, python float result"),
+    RuleSpec("C10.R9", rule_r9, 1, "A8", "one position entry per tempo change (parallel lists)"),
     RuleSpec("C10.R6", rule_r6, 6, "A3", "snapping and the position/time conversions write no hidden state"),
 ]
 
